@@ -73,7 +73,8 @@ def _rest(n, v, t, lo, cs, icvn, excluded, type_list):
         out.add(DATE_CODE.get(t, '6'))
     if type_list:
         # as a format QUALIFIER, DT means CCYYMMDDHHMM: twelve digits (the data TYPE DT also takes 6 and 8)
-        if not any(type_ok(v, x, cs, icvn) and (x != 'DT' or len(v) == 12) for x in type_list):
+        # as format qualifiers DT means CCYYMMDDHHMM and TM means HHMM (the data types of these names take other lengths too)
+        if not any(type_ok(v, x, cs, icvn) and (x != 'DT' or len(v) == 12) and (x != 'TM' or len(v) == 4) for x in type_list):
             out.add('9' if 'TM' in type_list else '8')
     if n.regex:
         if not re.search(n.regex, v, re.S):
@@ -237,7 +238,7 @@ def _through_segment(a, b, seg, cs, icvn, excluded, acc, fname, exclude, tier):
     dtp = seg.id == 'DTP' and b.seq == 3
     fmts = ['D8', 'RD8', 'D6', 'DT', 'TM']
     vals = ['20040229', '20040230', '20040101-20040102', '20040101-20040132', '040229', '200402291230', '1230', '2460', 'ABC',
-            '2004', '', '20040101-']
+            '2004', '', '20040101-', '113045', '1130459', '11304599', '2359']
     for q in quals[:1] or [None]:
         qcodes = [c for c in (q.codes if q else []) if c in fmts] or ([] if q else [])
         if dtp and q is None:
